@@ -461,6 +461,13 @@ pub fn inject(sim: &mut Sim, p: usize, spec: &InjectSpec) -> Vec<(Proto, Bytes, 
     if spec.kind == 101 {
         return plant_side_branch_block(sim, p, &mut rng);
     }
+    if spec.kind == 103 {
+        if let Some(hash) = plant_header(sim, p, &mut rng) {
+            sim.stat("fault.byz.planted_boundary_header");
+            let _ = crate::user::rpc(sim, "fetch_header", serde_json::json!([crate::user::h256_json(&hash)]));
+        }
+        return out;
+    }
     if spec.kind == 102 {
         // push the bodies of the planted blocks (self-consistent real blocks nobody proved)
         for h in sim.peers[p].planted.clone() {
@@ -1218,6 +1225,7 @@ pub fn mutate(
             _ => {}
         }
         let bytes: Option<(Bytes, String)> = match tag.kind {
+            _ if spec.op == 2000 => overflow_attack(data, &mut rng),
             Kind::SendLastStateProof => packed::LightClientMessageReader::from_compatible_slice(data)
                 .ok()
                 .and_then(|m| match m.to_enum() {
@@ -1633,4 +1641,184 @@ pub fn lie_check_points(
         sim.stat("fault.byz.lying_check_points");
     }
     (m.as_builder().block_filter_hashes(hashes.pack()).build(), lied)
+}
+
+/// Sibling digests tuned so that they add up to (about) 2^256-1 on their own: every check of
+/// the siblings alone passes, the first merge with a proved header's digest overflows.
+fn tuned_siblings(proof: Vec<packed::HeaderDigest>, rng: &mut Rng) -> Option<Vec<packed::HeaderDigest>> {
+    if proof.is_empty() {
+        return None;
+    }
+    let j = rng.usize_below(proof.len());
+    let mut others = U256::zero();
+    for (i, d) in proof.iter().enumerate() {
+        if i != j {
+            let td: U256 = d.total_difficulty().unpack();
+            others = others.checked_add(&td)?;
+        }
+    }
+    let room = u256_max().checked_sub(&others)?;
+    let td = match rng.below(4) {
+        0 => room,
+        1 => room.checked_sub(&U256::from(rng.below(1000))).unwrap_or(room),
+        2 => u256_max(),
+        _ => room.checked_sub(&U256::one()).unwrap_or(room),
+    };
+    let mut out = proof;
+    out[j] = out[j].clone().as_builder().total_difficulty(td.pack()).build();
+    Some(out)
+}
+
+fn overflowing_root(v: &packed::VerifiableHeader, rng: &mut Rng) -> packed::VerifiableHeader {
+    let root = v.parent_chain_root();
+    let td = if rng.chance(2, 3) { u256_max() } else { &u256_max() - rng.below(3) as u32 };
+    let root = if rng.chance(1, 5) {
+        root.as_builder().end_number(u64::MAX.pack()).build()
+    } else {
+        root.as_builder().total_difficulty(td.pack()).build()
+    };
+    v.clone().as_builder().parent_chain_root(root).build()
+}
+
+/// Honest answers whose peer-supplied totals / numbers sit at the arithmetic boundary (the
+/// header, uncles hash and extension - what the client compares first - stay as they are).
+fn overflow_attack(data: &Bytes, rng: &mut Rng) -> Option<(Bytes, String)> {
+    let m = packed::LightClientMessageReader::from_compatible_slice(data).ok()?;
+    let root_variant = rng.chance(1, 3);
+    let note = if root_variant { "overflowing chain root of the last header" } else { "sibling digests tuned to overflow at the first merge" };
+    let out = match m.to_enum() {
+        packed::LightClientMessageUnionReader::SendLastStateProof(r) => {
+            let e = r.to_entity();
+            if root_variant {
+                lc_msg(e.clone().as_builder().last_header(overflowing_root(&e.last_header(), rng)).build())
+            } else {
+                let proof = tuned_siblings(e.proof().into_iter().collect(), rng)?;
+                lc_msg(e.as_builder().proof(proof.pack()).build())
+            }
+        }
+        packed::LightClientMessageUnionReader::SendBlocksProof(r) => {
+            if r.count_extra_fields() >= 2 {
+                let e = packed::SendBlocksProofV1Reader::from_compatible_slice(r.as_slice()).ok()?.to_entity();
+                if root_variant {
+                    lc_msg(e.clone().as_builder().last_header(overflowing_root(&e.last_header(), rng)).build())
+                } else {
+                    let proof = tuned_siblings(e.proof().into_iter().collect(), rng)?;
+                    lc_msg(e.as_builder().proof(proof.pack()).build())
+                }
+            } else {
+                let e = r.to_entity();
+                if root_variant {
+                    lc_msg(e.clone().as_builder().last_header(overflowing_root(&e.last_header(), rng)).build())
+                } else {
+                    let proof = tuned_siblings(e.proof().into_iter().collect(), rng)?;
+                    lc_msg(e.as_builder().proof(proof.pack()).build())
+                }
+            }
+        }
+        packed::LightClientMessageUnionReader::SendTransactionsProof(r) => {
+            if r.count_extra_fields() >= 2 {
+                let e = packed::SendTransactionsProofV1Reader::from_compatible_slice(r.as_slice()).ok()?.to_entity();
+                if root_variant {
+                    lc_msg(e.clone().as_builder().last_header(overflowing_root(&e.last_header(), rng)).build())
+                } else {
+                    let proof = tuned_siblings(e.proof().into_iter().collect(), rng)?;
+                    lc_msg(e.as_builder().proof(proof.pack()).build())
+                }
+            } else {
+                let e = r.to_entity();
+                if root_variant {
+                    lc_msg(e.clone().as_builder().last_header(overflowing_root(&e.last_header(), rng)).build())
+                } else {
+                    let proof = tuned_siblings(e.proof().into_iter().collect(), rng)?;
+                    lc_msg(e.as_builder().proof(proof.pack()).build())
+                }
+            }
+        }
+        _ => return None,
+    };
+    Some((out.as_bytes(), note.to_string()))
+}
+
+/// The attacker makes up a header with a boundary number (valid PoW on a target of its own
+/// choice), hands its hash to the user, and the user asks the client to fetch it.
+fn plant_header(sim: &mut Sim, p: usize, rng: &mut Rng) -> Option<Byte32> {
+    let number = match rng.below(4) {
+        0 | 1 => u64::MAX,
+        2 => u64::MAX - 1,
+        _ => pick_u64(rng),
+    };
+    let root = random_digest(rng);
+    let ext: packed::Bytes = Bytes::from(root.calc_mmr_hash().as_slice().to_vec()).pack();
+    let mut ph = [0u8; 32];
+    rng.fill(&mut ph);
+    let header = raw_header(number, pick_epoch(rng), 0x2080_0000, rng.next_u64(), ph.pack(), &ext);
+    let header = crate::chain::mine_header(sim.world.params.pow, header);
+    let hash = header.calc_header_hash();
+    sim.peers[p].planted_headers.push((header, ext));
+    Some(hash)
+}
+
+/// The planting peer "finds" its made-up headers when asked to prove them.
+pub fn planted_blocks_proof(sim: &Sim, p: usize, req: &packed::GetBlocksProof, v1: bool) -> Option<(Bytes, Tag)> {
+    let planted = &sim.peers[p].planted_headers;
+    if planted.is_empty() {
+        return None;
+    }
+    let asked: Vec<Byte32> = req.block_hashes().into_iter().collect();
+    if !asked.iter().any(|h| planted.iter().any(|(hd, _)| hd.calc_header_hash() == *h)) {
+        return None;
+    }
+    let view = sim.peers[p].view;
+    let last_number = sim.world.number_on_branch(view.branch, &req.last_hash(), view.height)?;
+    let mut found: Vec<u64> = Vec::new();
+    let mut extra: Vec<(packed::Header, packed::Bytes)> = Vec::new();
+    let mut missing: Vec<Byte32> = Vec::new();
+    for h in asked {
+        if let Some(x) = planted.iter().find(|(hd, _)| hd.calc_header_hash() == h) {
+            extra.push(x.clone());
+            continue;
+        }
+        match sim.world.number_on_branch(view.branch, &h, view.height) {
+            Some(n) if n < last_number => found.push(n),
+            _ => missing.push(h),
+        }
+    }
+    let mut headers: Vec<packed::Header> =
+        found.iter().map(|n| sim.world.block(view.branch, *n).view.data().header()).collect();
+    let proof = sim.world.gen_proof(view.branch, last_number, &found);
+    let last_header = sim.world.block(view.branch, last_number).verifiable();
+    let mut uncles: Vec<Byte32> = found.iter().map(|n| sim.world.block(view.branch, *n).view.calc_uncles_hash()).collect();
+    let mut exts: Vec<packed::BytesOpt> = found
+        .iter()
+        .map(|n| packed::BytesOpt::new_builder().set(sim.world.block(view.branch, *n).view.extension()).build())
+        .collect();
+    for (h, e) in extra {
+        headers.push(h);
+        uncles.push(Byte32::zero());
+        exts.push(packed::BytesOpt::new_builder().set(Some(e)).build());
+    }
+    let m = if v1 {
+        lc_msg(
+            packed::SendBlocksProofV1::new_builder()
+                .last_header(last_header)
+                .proof(proof.pack())
+                .headers(headers.pack())
+                .missing_block_hashes(missing.pack())
+                .blocks_uncles_hash(uncles.pack())
+                .blocks_extension(packed::BytesOptVec::new_builder().set(exts).build())
+                .build(),
+        )
+    } else {
+        lc_msg(
+            packed::SendBlocksProof::new_builder()
+                .last_header(last_header)
+                .proof(proof.pack())
+                .headers(headers.pack())
+                .missing_block_hashes(missing.pack())
+                .build(),
+        )
+    };
+    let mut t = crafted(Kind::SendBlocksProof, "made-up header with a boundary number 'proven'");
+    t.request = None;
+    Some((m.as_bytes(), t))
 }
